@@ -44,7 +44,7 @@ ASSUMPTIONS = [
     "float64 evaluations of f, the oracle re-evaluates f with NumPy in another summation order",
     "negative-curvature claims are judged only where g.Hg < -1e-9 * sum|g_i H_ij g_j| and |g| > 1e-6; a trial point "
     "'lowers' f if f(trial) < f(x0) - 1e-9*scale and 'does not' if f(trial) > f(x0) + 1e-9*scale; recipes whose "
-    "deciding trial falls into the band in between are counted (class tie_band) but not judged for progress",
+    "deciding trial falls into the band in between are counted (class trials_tie) but not judged for progress",
     "the trial step lengths of one Newton-CG iteration are those in the code: 2^-k * g.g/|g.Hg| for k=0..5 along -g; "
     "after the sixth failure the line search resets to the steepest-descent formula (g.g/g.Hg) g, which for negative "
     "curvature points along +g; a run whose first iteration moved along +g is reported as a violation of 'steps "
@@ -57,6 +57,10 @@ ASSUMPTIONS = [
     "ill-posed, the exact curvature of the second CG direction is 0 and its floating-point value (0 or +-1e-32) decides "
     "between stopping and a step of size 1e31 (observed: eager takes it, compiled does not); exactly flat directions "
     "are covered where the first CG direction -g has exactly zero curvature (family 'flat')",
+    "eager/compiled mismatches are not judged (class mismatch_noise_floor) when the first Newton iteration at which "
+    "the two differ changed the energy by less than 1e-11 * sum|terms| in both variants although a step was taken: "
+    "the line-search comparisons `new_energy <= energy` are then decided by round-off (typical for the iteration "
+    "after quadratic convergence); exact ties (no step taken, e.g. zero curvature) stay judged",
     "time_threshold (wall clock) and name (logging) options are not generated",
 ]
 
@@ -276,8 +280,8 @@ def newton_options(rec, maxiter=None):
     return kw
 
 
-def run_eager(rec, th, x0, maxiter=None, record=None):
-    """nifty.re.optimize._newton_cg; `record` (list) receives the flat trial positions in 'vag_hessp' mode"""
+def run_eager(rec, th, x0, maxiter=None):
+    """nifty.re.optimize._newton_cg"""
     jax, jnp, _, O = _jx()
     kind = rec["kind"]
     thj = _thj(th)
@@ -290,12 +294,7 @@ def run_eager(rec, th, x0, maxiter=None, record=None):
     if mode == "fun_jac":
         return O._newton_cg(_objective(kind, thj), pos, jac=lambda x: grad(thj, x), **kw)
 
-    def fun_and_grad(x):
-        if record is not None:
-            record.append(x)
-        return vag(thj, x)
-
-    return O._newton_cg(None, pos, fun_and_grad=fun_and_grad, hessp=lambda x, t: hvp(thj, x, t), **kw)
+    return O._newton_cg(None, pos, fun_and_grad=lambda x: vag(thj, x), hessp=lambda x, t: hvp(thj, x, t), **kw)
 
 
 @functools.lru_cache(maxsize=None)
@@ -461,8 +460,7 @@ def _newton_descent(tag, runner, rec):
     classes = common_classes(rec, info)
     if tag == "eager":
         classes.append(f"mode_{rec.get('mode', 'fun')}")
-    record = [] if (tag == "eager" and rec.get("mode") == "vag_hessp") else None
-    res = runner(rec, th, x0, None, record) if tag == "eager" else runner(rec, th, x0, None)
+    res = runner(rec, th, x0, None)
     r = result_fields(rec["kind"], res)
     f0, f1 = check_not_uphill(tag, th, x0, r)
     require(r["success"] is True, f"{tag}:success_flag", str(r["success"]))
@@ -491,7 +489,7 @@ def _newton_descent(tag, runner, rec):
             if rec["maxiter"] == 1:
                 r1 = r
             else:
-                res1 = runner(rec, th, x0, 1, None) if tag == "eager" else runner(rec, th, x0, 1)
+                res1 = runner(rec, th, x0, 1)
                 r1 = result_fields(rec["kind"], res1)
             check_negcurv(tag, th, x0, info, ta, r, r1)
         elif ta["verdict"] == "none":
@@ -501,7 +499,7 @@ def _newton_descent(tag, runner, rec):
             if rec["maxiter"] == 1:
                 r1 = r
             else:
-                res1 = runner(rec, th, x0, 1, None) if tag == "eager" else runner(rec, th, x0, 1)
+                res1 = runner(rec, th, x0, 1)
                 r1 = result_fields(rec["kind"], res1)
             d = r1["x"] - x0
             if float(np.linalg.norm(d)) > 0:
@@ -561,14 +559,8 @@ def _perturbed_stable(rec, th, x0, re, tol_x):
     return True
 
 
-def check_agree(rec):
-    th = theta_np(rec)
-    x0 = np.asarray(rec["x0"], dtype=np.float64)
-    info = classify_start(th, x0)
-    classes = common_classes(rec, info)
-    classes.append(f"mode_{rec.get('mode', 'fun')}")
-    re_ = result_fields(rec["kind"], run_eager(rec, th, x0))
-    rs = result_fields(rec["kind"], run_static(rec, th, x0))
+def _compare(th, x0, re_, rs):
+    """list of the OptimizeResults fields in which eager and compiled differ, and the tolerances used"""
     _, se = f_np(th, re_["x"])
     _, s0 = f_np(th, x0)
     xs = max(1.0, float(np.max(np.abs(x0))), float(np.max(np.abs(re_["x"]))) if np.all(np.isfinite(re_["x"])) else 1.0)
@@ -584,10 +576,48 @@ def check_agree(rec):
         bad.append("status")
     if re_["success"] != rs["success"]:
         bad.append("success")
+    return bad, tol_x, tol_f
+
+
+def _noise_floor_divergence(rec, th, x0):
+    """Locate the first Newton iteration m at which eager and compiled differ (runs with maxiter=m are prefixes of
+    the full run).  True if in that iteration both variants moved by an energy amount that float64 cannot resolve
+    (|dE| <= 1e-11 * sum|terms|) while at least one of them did move: the accept / halve / abort decisions of the line
+    search (`new_energy <= energy`) are then decided by round-off, not by the algorithm."""
+    kind = rec["kind"]
+    prev = x0
+    for m in range(1, rec["maxiter"] + 1):
+        e = result_fields(kind, run_eager(rec, th, x0, m))
+        s = result_fields(kind, run_static(rec, th, x0, m))
+        bad, _, _ = _compare(th, x0, e, s)
+        if bad:
+            fp, sp = f_np(th, prev)
+            fe, _ = f_np(th, e["x"])
+            fs, _ = f_np(th, s["x"])
+            moved = (not np.array_equal(e["x"], prev)) or (not np.array_equal(s["x"], prev))
+            return moved and max(abs(fp - fe), abs(fp - fs)) <= 1e-11 * sp
+        if e["nit"] < m:      # both stopped early, identically
+            return False
+        prev = e["x"]
+    return False
+
+
+def check_agree(rec):
+    th = theta_np(rec)
+    x0 = np.asarray(rec["x0"], dtype=np.float64)
+    info = classify_start(th, x0)
+    classes = common_classes(rec, info)
+    classes.append(f"mode_{rec.get('mode', 'fun')}")
+    re_ = result_fields(rec["kind"], run_eager(rec, th, x0))
+    rs = result_fields(rec["kind"], run_static(rec, th, x0))
+    bad, tol_x, tol_f = _compare(th, x0, re_, rs)
     if bad:
         detail = (f"eager: x={re_['x'].tolist()} fun={re_['fun']!r} status={re_['status']} nit={re_['nit']} "
                   f"nfev={re_['nfev']}; compiled: x={rs['x'].tolist()} fun={rs['fun']!r} status={rs['status']} "
                   f"nit={rs['nit']} nfev={rs['nfev']}; tol_x={tol_x:.1e} tol_f={tol_f:.1e}")
+        if _noise_floor_divergence(rec, th, x0):
+            classes.append("mismatch_noise_floor")
+            return dict(nontrivial=False, classes=classes)
         if _perturbed_stable(rec, th, x0, re_, tol_x):
             raise Violation("eager_vs_compiled:" + "+".join(bad), detail)
         classes.append("mismatch_unstable")
@@ -799,20 +829,20 @@ R_AGREE = ("_newton_cg vs _static_newton_cg with identical options on {}: x, fun
 # one sub-check per (minimiser, layout group): a worker then compiles two layouts only (XLA compile time dominates)
 SUBS = [
     Sub(name="eager_newton_cg", check=check_eager, strategy=newton_recipes(plain_every=0, free_erf=True), jax=True,
-        quick=2400, thorough=40000, shards=3, budget_quick=60.0,
+        quick=2400, thorough=40000, shards=3, budget_quick=100.0,
         rule="nifty.re.optimize._newton_cg (objective as fun / fun+jac / fun_and_grad+hessp) on all layouts: "
              "f(x_ret) <= f(x0), fun == f(x_ret); negative-curvature start: first iteration along -g, strict "
              "progress, status not aborted/converged at x0; " + NT_NEWTON),
     Sub(name="static_newton_cg_array", check=check_static, strategy=newton_recipes(kinds=ARRAYS), jax=True,
-        quick=2000, thorough=20000, shards=2, budget_quick=60.0, rule=R_STATIC.format("array positions")),
+        quick=2000, thorough=20000, shards=2, budget_quick=100.0, rule=R_STATIC.format("array positions")),
     Sub(name="static_newton_cg_vector", check=check_static, strategy=newton_recipes(kinds=VECTORS), jax=True,
-        quick=2000, thorough=20000, shards=2, budget_quick=60.0, rule=R_STATIC.format("Vector positions")),
+        quick=2000, thorough=20000, shards=2, budget_quick=100.0, rule=R_STATIC.format("Vector positions")),
     Sub(name="trust_ncg_array", check=check_trust, strategy=trust_recipes(ARRAYS), jax=True,
-        quick=1500, thorough=15000, shards=1, budget_quick=60.0, rule=R_TRUST.format("array positions")),
+        quick=1500, thorough=15000, shards=1, budget_quick=100.0, rule=R_TRUST.format("array positions")),
     Sub(name="trust_ncg_vector", check=check_trust, strategy=trust_recipes(VECTORS), jax=True,
-        quick=1500, thorough=15000, shards=1, budget_quick=60.0, rule=R_TRUST.format("Vector positions")),
+        quick=1500, thorough=15000, shards=1, budget_quick=100.0, rule=R_TRUST.format("Vector positions")),
     Sub(name="eager_vs_compiled_array", check=check_agree, strategy=newton_recipes(kinds=ARRAYS), jax=True,
-        quick=1200, thorough=20000, shards=2, budget_quick=60.0, rule=R_AGREE.format("array positions")),
+        quick=1200, thorough=20000, shards=2, budget_quick=100.0, rule=R_AGREE.format("array positions")),
     Sub(name="eager_vs_compiled_vector", check=check_agree, strategy=newton_recipes(kinds=VECTORS), jax=True,
-        quick=1200, thorough=20000, shards=2, budget_quick=60.0, rule=R_AGREE.format("Vector positions")),
+        quick=1200, thorough=20000, shards=2, budget_quick=100.0, rule=R_AGREE.format("Vector positions")),
 ]
